@@ -1,5 +1,5 @@
 //verif:pkg .
-//verif:use servers_mcp
+//verif:use streams_mcp
 //verif:bound one session, an old listening stream and a new one; deterministic kernels: (a) a send issued at the very moment the new stream's headers are flushed, (b) a send after the old stream's handler has exited, (c) a stream whose request context ends removes only itself; exploration kernel: old GET, new GET and a sender as three goroutines under all schedules at the modelled synchronisation points with <= 2 (thorough 4) forced context switches (engine only)
 //verif:assume more than one reconnect generation and real network timing are outside the claim
 package mcp
@@ -7,79 +7,8 @@ package mcp
 import (
 	"context"
 	"net/http"
-	"strings"
 	"time"
 )
-
-type c11Stream struct {
-	rec     *verifRecorder
-	flushed chan struct{}
-	done    chan struct{}
-	cancel  context.CancelFunc
-}
-
-func c11Open(srv *Server, id string, onFirstFlush func()) *c11Stream {
-	st := &c11Stream{rec: newVerifRecorder(), flushed: make(chan struct{}, 8), done: make(chan struct{})}
-	first := true
-	st.rec.onFlush = func() {
-		if first {
-			first = false
-			if onFirstFlush != nil {
-				onFirstFlush()
-			}
-		}
-		select {
-		case st.flushed <- struct{}{}:
-		default:
-		}
-	}
-	ctx, cancel := context.WithCancel(context.Background())
-	st.cancel = cancel
-	go func() {
-		req := verifRequest("GET", "/mcp", nil, "Accept", "text/event-stream", "Mcp-Session-Id", id)
-		srv.httpHandler.ServeHTTP(st.rec, req.WithContext(ctx))
-		close(st.done)
-	}()
-	return st
-}
-
-func c11Wait(ch chan struct{}) bool {
-	select {
-	case <-ch:
-		return true
-	case <-time.After(400 * time.Millisecond):
-	}
-	return false
-}
-
-func c11Session(srv *Server) string {
-	rec := newVerifRecorder()
-	srv.httpHandler.ServeHTTP(rec, verifRequest("POST", "/mcp",
-		[]byte(`{"jsonrpc":"2.0","id":0,"method":"initialize","params":{"protocolVersion":"2025-03-26"}}`), "Accept", "application/json"))
-	return rec.header.Get("Mcp-Session-Id")
-}
-
-// c11Has: some SSE frame on the stream is a JSON-RPC message mentioning marker (as params.m or as method).
-func c11Has(rec *verifRecorder, marker string) bool {
-	for _, line := range strings.Split(string(rec.body), "\n") {
-		if !strings.HasPrefix(line, "data: ") {
-			continue
-		}
-		doc, ok := verifParse([]byte(strings.TrimPrefix(line, "data: ")))
-		if !ok {
-			continue
-		}
-		m, _ := verifObj(doc)
-		if meth, _ := m["method"].(string); meth == marker {
-			return true
-		}
-		pm, _ := verifObj(m["params"])
-		if v, _ := pm["m"].(string); v == marker {
-			return true
-		}
-	}
-	return false
-}
 
 // H_C11_send_at_header_flush: the new stream's headers reach the client; a notification sent at that very
 // moment succeeds and arrives on the new stream.
